@@ -173,6 +173,12 @@ def class_facts(T, ac, pre):
         facts.append((f"{pre}/source-decorator-frozen-slots-kw_only", d.get("frozen") is True and d.get("slots") is True
                       and d.get("kw_only") is True, d))
         facts.append((f"{pre}/no-base-classes", ac["bases"] == [], ac["bases"]))
+    # "equal exactly when all fields are equal, hash consistent with that": every field takes part in __eq__/__hash__
+    # and in __init__ (a field excluded from comparison, or a hidden non-init field, makes unequal values compare equal)
+    for f in dataclasses.fields(T):
+        facts.append((f"{pre}.{f.name}/field-takes-part-in-eq-hash-and-init",
+                      f.compare is True and f.hash in (None, True) and f.init is True and f.kw_only is True,
+                      f"compare={f.compare} hash={f.hash} init={f.init} kw_only={f.kw_only}"))
     try:
         hints = typing.get_type_hints(T)
         for f in dataclasses.fields(T):
